@@ -12,7 +12,7 @@
    "whatever the bytes" for the third-party layers is fuzzing, not proof. *)
 From Coq Require Import List NArith ZArith QArith Qcanon Bool.
 From ACB Require Import Base.Outcome Base.QcExtra Base.Fit Base.Arith Model.Tx Model.Ledger Model.Sfl
-     Model.DeltaList Proofs.C04Inv Proofs.C05Sites Proofs.C04Reject Proofs.C05NoPanic.
+     Model.DeltaList Proofs.C04Inv Proofs.C05Sites Proofs.C04Reject Proofs.C05NoPanic Proofs.C05Dec.
 Import ListNotations.
 
 (* Under exact arithmetic neither assert_eq! of set_latest_post_status can
@@ -126,4 +126,94 @@ Example C05_exact_hypotheses_hold :
 Proof.
   split; [intros i E; discriminate E|]. split; [repeat constructor|].
   split; [repeat constructor | vm_compute; reflexivity].
+Qed.
+
+
+(* ---- UNDER ROUNDING: the complete list of panic classes of the ledger ----
+   For rust_decimal rounding (and any arithmetic whose operators fail only by
+   overflow and keep a non-negative result non-negative: [sign_arith]), every
+   history of rows that parse (positive / non-negative quantities: vtx), any
+   length, affiliates, order, opening position: a panic of the bookkeeping core
+   is an operator overflow, the effective-cent unwrap (math.rs:93), the
+   all-affiliate assert_eq! of set_latest_post_status (rounding residue), or a
+   strictly positive / negative constrained quantity that ROUNDED TO ZERO at
+   one of eight sites (PosDecimal * PosDecimal, PosDecimal / PosDecimal, the
+   NegDecimal products and quotient, the two ratio conversions,
+   SflaTxSpecifics::total_amount).  All other 17 panic sites of the modelled
+   core (GreaterEqualZero constructors, division by zero, the registered /
+   cost-base assertions, missing map entries, no-buyers assertion, ...) are
+   unreachable under rounding too.  No hypothesis about affiliates' flags is
+   needed: the sanity check of the row itself establishes what the assertions
+   test. *)
+Theorem C05_rounded_panic_classes : forall init txs ds p,
+  run dec init txs = (ds, Some (SPanic p)) ->
+  init_ok2 init -> Forall vtx txs ->
+  p = PanicOverflow \/ p = PanicConstraint Site.eff_cent \/ p = PanicAssert Site.set_latest_all \/
+  exists s, In s [Site.pos_mul; Site.pos_div; Site.neg_mul; Site.neg_div; Site.neg_mul_pos;
+                  Site.ratio_to_pos; Site.af_ratio_pos; Site.sfla_total] /\ p = PanicConstraint s.
+Proof. exact (C05Dec.run_panic_classes dec C05Dec.dec_sign). Qed.
+Check C05_rounded_panic_classes : forall init txs ds p,
+  run dec init txs = (ds, Some (SPanic p)) ->
+  init_ok2 init -> Forall vtx txs ->
+  p = PanicOverflow \/ p = PanicConstraint Site.eff_cent \/ p = PanicAssert Site.set_latest_all \/
+  exists s, In s [Site.pos_mul; Site.pos_div; Site.neg_mul; Site.neg_div; Site.neg_mul_pos;
+                  Site.ratio_to_pos; Site.af_ratio_pos; Site.sfla_total] /\ p = PanicConstraint s.
+Print Assumptions C05_rounded_panic_classes.
+
+(* the same list for every arithmetic of that kind (exact included) *)
+Theorem C05_sign_arith_panic_classes : forall (A : arith), C05Dec.sign_arith A ->
+  forall init txs ds p,
+  run A init txs = (ds, Some (SPanic p)) -> init_ok2 init -> Forall vtx txs -> C05Dec.pclass p.
+Proof. exact C05Dec.run_panic_classes. Qed.
+Check C05_sign_arith_panic_classes : forall (A : arith), C05Dec.sign_arith A ->
+  forall init txs ds p,
+  run A init txs = (ds, Some (SPanic p)) -> init_ok2 init -> Forall vtx txs -> C05Dec.pclass p.
+Print Assumptions C05_sign_arith_panic_classes.
+
+(* what a failure at such a site means: the exact product of two positive
+   quantities is positive, its rust_decimal rounding is exactly 0 *)
+Theorem C05_strict_site_failure_is_underflow : forall a b p,
+  (0 < a)%Qc -> (0 < b)%Qc -> pos_mul dec a b = Panic p ->
+  p = PanicOverflow \/ (p = PanicConstraint Site.pos_mul /\ fit (a * b)%Qc = Some 0%Qc).
+Proof. exact C05Dec.dec_pos_mul_underflow. Qed.
+Check C05_strict_site_failure_is_underflow : forall a b p,
+  (0 < a)%Qc -> (0 < b)%Qc -> pos_mul dec a b = Panic p ->
+  p = PanicOverflow \/ (p = PanicConstraint Site.pos_mul /\ fit (a * b)%Qc = Some 0%Qc).
+Print Assumptions C05_strict_site_failure_is_underflow.
+
+(* (4) fourth class of C05's refutation, found while proving the list above:
+   a co-holder with 1e-10 shares next to a holder of 9e11 shares buys inside
+   the window of a loss of 1e-7: its portion of the denied loss, 1e-7 x 1.1e-22,
+   rounds to zero in 28 digits and is unwrapped as a PosDecimal
+   (decimal.rs PosDecimal * PosDecimal).  All values are in the stated range. *)
+Definition aff_b := {| af_id := 1003; af_reg := false; af_dflt := false |}.
+Definition mk_af af sd a :=
+  {| t_sec := 0; t_td := sd; t_sd := sd; t_act := a; t_af := af; t_glob := false; t_ri := 0 |}.
+Definition w_under : list tx := [
+  mk_af default_aff 100 (Buy (q 900000000000 1) (q 1 1) (q 0 1) (q 1 1) (q 1 1));
+  mk_af aff_b 101 (Buy (q 1 10000000000) (q 1 1) (q 0 1) (q 1 1) (q 1 1));
+  mk_af default_aff 108 (Sell (q 1 1) (q 9999999 10000000) (q 0 1) (q 1 1) (q 1 1) None)].
+
+Theorem C05_refuted_underflow :
+  forallb (fun t => valid_tx t && action_in_range (t_act t)) w_under = true /\
+  snd (run dec None w_under) = Some (SPanic (PanicConstraint Site.pos_mul)) /\
+  snd (run exact None w_under) = None.
+Proof. vm_compute. repeat split. Qed.
+Check C05_refuted_underflow :
+  forallb (fun t => valid_tx t && action_in_range (t_act t)) w_under = true /\
+  snd (run dec None w_under) = Some (SPanic (PanicConstraint Site.pos_mul)) /\
+  snd (run exact None w_under) = None.
+Print Assumptions C05_refuted_underflow.
+
+(* non-vacuity of C05_rounded_panic_classes: all four witnesses meet its
+   hypotheses, panic under rounding, and fall in four different classes *)
+Example C05_rounded_hypotheses_hold :
+  init_ok2 None /\ Forall vtx (w_eff ++ w_over ++ w_split ++ w_under) /\
+  snd (run dec None w_eff) = Some (SPanic (PanicConstraint Site.eff_cent)) /\
+  snd (run dec None w_over) = Some (SPanic PanicOverflow) /\
+  snd (run dec None w_split) = Some (SPanic (PanicAssert Site.set_latest_all)) /\
+  snd (run dec None w_under) = Some (SPanic (PanicConstraint Site.pos_mul)).
+Proof.
+  split; [intros i E; discriminate E|]. split; [repeat constructor|].
+  vm_compute. repeat split.
 Qed.
